@@ -20,7 +20,7 @@ DEV_STOP = "stop-running-basic-nil-processstate"
 DEV_REAPER = "kill-races-with-reaper-start"
 
 KINDS = ["basic", "hook", "ctl"]
-BEHS = ["sleep", "ignore", "fork", "exit0", "exit3", "crash", "noready", "stuck"]
+BEHS = ["sleep", "ignore", "fork", "exit0", "exit3", "crash", "noready", "stuck", "done0", "done3", "donesig", "nodone"]
 REQS = ["CONFIGURE", "START", "STOP", "Trigger", "Kill"]
 INSTS = ["launching", "nochild", "starting", "polling", "running", "exiting", "reaped"]
 NTHS = [1, 2]   # first / repeated request of its type
@@ -136,7 +136,7 @@ def scn_from_counterexample(sid, beh, inv):
             steps.append({"a": "ProcHeld" if nxt in ("FINISHED", "FAILED", "KILLED") else "Proc"})
         elif name in ("Respond", "KillSend"):
             steps.append({"a": "Body", "r": prev["hs"][int(args[0]) - 1]["r"]})
-        elif name in ("WaitRet", "KillBodyBasic", "TransBody", "ReaperStart", "NoopBody", "StartBody", "StopBody", "StopPush", "StopKill", "KUnblock", "TransCommit",
+        elif name in ("WaitRet", "KillBodyBasic", "TransBody", "ReaperStart", "NoopBody", "StartBody", "StopBody", "StopPush", "StopKill", "KPush", "KGrace", "DoneExit", "TransCommit",
                       "LWaitRet"):
             steps.append({"a": "Nop"})
         elif name == "KBody":
@@ -193,11 +193,11 @@ def _run(ctx, replay_scn):
     b4 = ["sleep", "fork", "exit3", "crash"]
     if quick:
         runs = [("basic", 3, b4, ["START", "STOP", "Kill"]), ("hook", 3, b4, None),
-                ("ctl", 2, ["sleep", "ignore", "fork", "exit3", "noready", "stuck"], None)]
+                ("ctl", 2, ["sleep", "fork", "noready", "stuck", "done3", "nodone"], None)]
     else:
         runs = [("basic", 4, b4, ["START", "STOP", "Kill"]), ("basic", 3, None, None),
                 ("hook", 4, ["sleep", "fork"], None), ("hook", 3, None, None),
-                ("ctl", 3, ["sleep", "fork", "exit3"], ["CONFIGURE", "Kill"]), ("ctl", 2, None, None)]
+                ("ctl", 3, ["sleep", "fork", "exit3", "done3"], ["CONFIGURE", "Kill"]), ("ctl", 2, None, None)]
     scenarios = []
     predicted_new = []
     sid = 0
@@ -290,7 +290,9 @@ def _run(ctx, replay_scn):
 
     for d in drift:
         s = by_id.get(d[1], {})
-        ctx.drift.append({"scn": d[1], "line": d[2], "event": d[3], "cls": s.get("cls")})
+        ctx.drift.append({"scn": d[1], "line": d[2], "event": d[3], "cls": s.get("cls"),
+                          "tail": [{k: v for k, v in x.items() if k not in ("scn", "seq", "cls", "msg", "errs")}
+                                   for x in trace_of(d[1]) if x["ev"] != "Note"][-8:]})
     observed = {}
     seen = set()
     for v in viol:
